@@ -57,3 +57,137 @@ func zzH_C08_cache() {
 	}
 	zzv.Reach("done")
 }
+
+func init() {
+	zzHarnesses["zzH_C08_loop"] = zzH_C08_loop
+}
+
+var zzLoopLines = []string{"cab", "ca", "ab", "a", "cb", "ba", "c", "aa", "bc", "ac", "bb", "cc"}
+
+// zzResultsOf lists a merger's results (item ordinal, sort key).
+func zzSameMerger(a, b *Merger) bool {
+	if a.Length() != b.Length() {
+		return false
+	}
+	ok := true
+	for i := 0; i < a.Length(); i++ {
+		ra, rb := a.Get(i), b.Get(i)
+		if ra.item.Index() != rb.item.Index() || ra.points != rb.points {
+			ok = false
+		}
+	}
+	return ok
+}
+
+// H8.loop: the real Matcher.Loop (run as a coroutine) is driven through histories of the events
+// the coordinator produces - more input (with and without --tail), query changes, sort toggles,
+// reloads - and, whenever a request is final, the published list must equal what a fresh matcher
+// (new caches) computes for that very request: result caches, the merger cache and revision
+// handling are never observable.
+func zzH_C08_loop() {
+	algo.Init("default")
+	sortCriteria = []criterion{byScore, byLength}
+	tail := zzv.CfgInt("tail")
+	cache := NewChunkCache()
+	patternCache := map[string]*Pattern{}
+	rev := revision{}
+	next := 0
+	cl := NewChunkList(cache, func(item *Item, data []byte) bool {
+		item.text = util.ToChars(data)
+		item.text.Index = int32(next)
+		next++
+		return true
+	})
+	builder := func(c *ChunkCache, pc map[string]*Pattern, r revision) func([]rune) *Pattern {
+		return func(runes []rune) *Pattern {
+			return BuildPattern(c, pc, true, algo.FuzzyMatchV2, true, CaseSmart, true, true,
+				false, true, nil, Delimiter{}, r, runes, nil)
+		}
+	}
+	eventBox := util.NewEventBox()
+	m := NewMatcher(cache, func(runes []rune) *Pattern { return builder(cache, patternCache, rev)(runes) }, true, false, eventBox, rev)
+	m.partitions = 2
+	m.slab = make([]*util.Slab, 2)
+	go m.Loop()
+	lineNo := 0
+	push := func(k int) {
+		for i := 0; i < k; i++ {
+			l := zzLoopLines[lineNo%len(zzLoopLines)]
+			if lineNo == 1 && zzv.CfgBool("symbolic") {
+				l = string([]byte{"abc"[zzv.Below(3)], 'a'})
+			}
+			lineNo++
+			cl.Push([]byte(l))
+		}
+	}
+	query := "a"
+	sortOn := true
+	push(zzv.CfgInt("initial"))
+	steps := zzv.CfgInt("steps")
+	reading := true // input is still being loaded; final = !reading, as the coordinator computes it
+	for s := 0; s < steps; s++ {
+		cancel := true
+		ev := zzv.Choose(0, 4)
+		if s == steps-1 && reading {
+			ev = 4 // every history ends with the end of input: the quiescent state the property speaks of
+		}
+		switch ev {
+		case 0: // more input arrives (only while loading)
+			zzv.Assume(reading)
+			push(zzv.Choose(1, 2))
+			cancel = false
+		case 1: // the query changes
+			query = []string{"a", "b", "ab", "c"}[zzv.Choose(0, 3)]
+		case 2: // toggle-sort
+			sortOn = !sortOn
+		case 3: // reload: new input stream
+			rev.bumpMajor()
+			cl.Clear()
+			patternCache = map[string]*Pattern{}
+			push(zzv.Choose(1, 3))
+			reading = true
+		case 4: // end of input (possibly with a last batch)
+			zzv.Assume(reading)
+			push(zzv.Choose(0, 1))
+			reading = false
+			cancel = false
+		}
+		final := !reading
+		snapshot, _, changed := cl.Snapshot(tail)
+		if changed {
+			rev.bumpMinor()
+		}
+		m.Reset(snapshot, []rune(query), cancel, final, sortOn, rev)
+		zzv.RunUntilIdle()
+		var got *Merger
+		eventBox.Wait(func(events *util.Events) {
+			if v, ok := (*events)[EvtSearchFin]; ok {
+				got = v.(*Merger)
+			}
+			events.Clear()
+		})
+		zzv.Assert("every-request-is-answered", got != nil)
+		if got != nil {
+			fm := NewMatcher(NewChunkCache(), builder(NewChunkCache(), map[string]*Pattern{}, rev), sortOn, false, util.NewEventBox(), rev)
+			fm.partitions = 2
+			fm.slab = make([]*util.Slab, 2)
+			want, _ := fm.scan(MatchRequest{chunks: snapshot, pattern: builder(NewChunkCache(), map[string]*Pattern{}, rev)([]rune(query)), final: final, sort: sortOn, revision: rev})
+			zzv.Observe("step", s)
+			zzv.Observe("got", got.Length())
+			zzv.Observe("want", want.Length())
+			same := zzSameMerger(got, want)
+			if final {
+				// C08: the quiescent list equals a fresh filter
+				zzv.Assert("final-result-equals-fresh-filter", same)
+				zzv.Assert("final-flag-published", got.final)
+				zzv.Reach("opt:final-compared")
+			} else {
+				// C13: every published result is the filter of the snapshot its search was started on
+				zzv.Assert("published-result-is-filter-of-its-snapshot", same)
+			}
+		}
+	}
+	m.Stop()
+	zzv.RunUntilIdle()
+	zzv.Reach("done")
+}
